@@ -1,6 +1,7 @@
 package main
 
 import (
+	"math/bits"
 	"strconv"
 	"strings"
 	"unicode"
@@ -76,6 +77,8 @@ func registerIntrinsics3(e *Engine) {
 	I["unicode.ToLower"] = func(e *Engine, fr *frame, a []Value) Value { return int64(unicode.ToLower(rune(asInt(a[0])))) }
 	I["unicode.ToUpper"] = func(e *Engine, fr *frame, a []Value) Value { return int64(unicode.ToUpper(rune(asInt(a[0])))) }
 	I["unicode.IsPunct"] = func(e *Engine, fr *frame, a []Value) Value { return unicode.IsPunct(rune(asInt(a[0]))) }
+	I["math/bits.Len"] = func(e *Engine, fr *frame, a []Value) Value { return int64(bits.Len(uint(asInt(a[0])))) }
+	I["math/bits.Len64"] = func(e *Engine, fr *frame, a []Value) Value { return int64(bits.Len64(uint64(asInt(a[0])))) }
 	I["sort.Ints"] = func(e *Engine, fr *frame, a []Value) Value {
 		s := a[0].(Slice)
 		el := sliceElems(s)
